@@ -36,6 +36,10 @@ func typeName(t types.TxType) string {
 
 func pick(t *rapid.T, label string, n int) int { return rapid.IntRange(0, n-1).Draw(t, label) }
 
+// rare is true with a probability of roughly 1/(2n): rapid's integer draws favour small values and the bounds,
+// so the rare alternative is a value in the upper middle of the range.
+func rare(t *rapid.T, label string, n int) bool { return rapid.IntRange(0, n-1).Draw(t, label) == (2*n)/3 }
+
 // abandon is thrown (and recovered at the top of the case) to leave a world
 // after a recovered panic of the code under test.
 type abandon struct{}
